@@ -158,6 +158,15 @@ theorem fine_refines (D : Discipline) (hD : D.isSafe = true) : Refines D := by
   | racy => cases hD
   | unknown => cases hD
 
+/-- Serialisability one level down: every schedule of the fine-grained operations has a *serial*
+    fine-grained schedule (each draw's `get`/`set`, `lock`/read/write/`unlock`, load/CAS back to back)
+    that gives every thread the same result stream. -/
+theorem fine_serializable (D : Discipline) (hD : D.isSafe = true) : FineSerializable D := by
+  intro σ ρ _ g seed progs sched
+  obtain ⟨order, h⟩ := fine_refines D hD g seed progs sched
+  refine ⟨order, fun i => ?_⟩
+  rw [h, fexec_fexpand D hD g _ (quiet_init seed progs) order, finit_abs]
+
 /-- Mutual exclusion of the fine-grained mutex discipline: after any schedule at most one thread is
     inside a draw, and it holds the lock. -/
 theorem mutex_mutual_exclusion {σ ρ : Type} [DecidableEq σ] (g : Gen σ ρ) (seed : σ) (progs sched : List Nat)
